@@ -232,8 +232,15 @@ shape("FlowPopulate", {
     "compute_weights": Contract(
         "<abstract>", "FlowProposal.compute_weights",
         params={"x": PT, "log_q": "Seq(Real)"}, trusted=True,
-        trusted_reason="log prior - log q per point (some reals)",
-        returns="Seq(Real)", ensures=["len(result) == len(x)"]),
+        trusted_reason="log prior - log q per point: in IEEE arithmetic a "
+        "point whose log-prior is -inf (or NaN) gets the weight -inf (or "
+        "NaN) -- the log q of a kept point is finite (backward_pass discards "
+        "the others)",
+        returns="Seq(Real)",
+        ensures=["len(result) == len(x)",
+                 "forall(i, 0, len(x), implies(LPr(x[i]) == -INF or "
+                 "isnan(LPr(x[i])), result[i] == -INF or "
+                 "isnan(result[i])))"]),
     "convert_to_samples": Contract(
         "<abstract>", "FlowProposal.convert_to_samples",
         params={"x": PT, "plot": "Any"}, trusted=True,
@@ -296,12 +303,20 @@ contract(
                 "n_accepted == 0 or n_proposed >= 1",
                 # the rows filled so far are in-bounds points
                 "forall(i, 0, (n_accepted if n_accepted < N else N), "
-                "InBounds(samples[i]))"],
+                "InBounds(samples[i]))",
+                # ... accepted by the rejection step: their log-prior is
+                # neither -inf nor NaN
+                "forall(i, 0, (n_accepted if n_accepted < N else N), "
+                "LPr(samples[i]) != -INF and not isnan(LPr(samples[i])))"],
     }},
     ensures=pool_inv() + [
         # a flow-based pool has exactly the requested size
         "len(self.samples) == N", "len(self.indices) == N",
         "self.populated",
+        # every pool point has a finite log-prior (zero-prior points are
+        # rejected: their weight is -inf / NaN and no comparison accepts it)
+        "forall(i, 0, len(self.samples), self.samples[i]['logP'] != -INF "
+        "and not isnan(self.samples[i]['logP']))",
     ],
 )
 
@@ -326,12 +341,23 @@ contract(
                 "n_accepted == 0 or n_proposed >= 1",
                 "len(log_weights) == len(samples)",
                 "forall(i, 0, len(samples), InBounds(samples[i]))",
+                # a point without prior support carries the weight -inf / NaN
+                "forall(i, 0, len(samples), implies(LPr(samples[i]) == -INF "
+                "or isnan(LPr(samples[i])), log_weights[i] == -INF or "
+                "isnan(log_weights[i])))",
                 # n_accepted only changes when the acceptance mask is
                 # recomputed over all accumulated samples; reaching N ends
                 # the loop at once, so then the mask is the current one
                 "implies(n_accepted >= N, accept is not None and "
                 "len(accept) == len(samples) and "
-                "n_accepted == count(accept))"],
+                "n_accepted == count(accept))",
+                "implies(accept is not None, len(accept) <= len(samples))",
+                # a mask over all accumulated samples accepts no point whose
+                # weight is -inf / NaN
+                "implies(accept is not None and "
+                "len(accept) == len(samples), forall(k, 0, len(samples), "
+                "implies(accept[k], log_weights[k] != -INF and "
+                "not isnan(log_weights[k]))))"],
     }},
     ensures=pool_inv() + [
         # exactly the requested size -- unless the documented escape hatch
@@ -340,6 +366,10 @@ contract(
         "len(self.samples) == N or "
         "final('n_proposed', 'Int') > max_samples",
         "len(self.indices) == len(self.samples)", "self.populated",
+        # every pool point has a finite log-prior (zero-prior points are
+        # rejected: their weight is -inf / NaN and no comparison accepts it)
+        "forall(i, 0, len(self.samples), self.samples[i]['logP'] != -INF "
+        "and not isnan(self.samples[i]['logP']))",
     ],
 )
 
